@@ -17,6 +17,8 @@ func VerifOwner(obj any) any {
 		return x.streamer
 	case *Pipeline:
 		return x.streamer
+	case *streamer:
+		return x
 	}
 	return obj
 }
@@ -28,7 +30,7 @@ func (p *Pipeline) VerifPoolInUse() int64   { return p.eventPool.inUse() }
 func (p *Pipeline) VerifPoolWaiters() int64 { return p.eventPool.waiters() }
 func (p *Pipeline) VerifProcCount() int     { return int(p.procCount.Load()) }
 
-// VerifObjKind classifies label objects: 1 batcher, 2 stream, 3 processor, 4 pipeline, 0 other.
+// VerifObjKind classifies label objects: 1 batcher, 2 stream, 3 processor, 4 pipeline, 5 streamer, 0 other.
 func VerifObjKind(obj any) int {
 	switch obj.(type) {
 	case *Batcher:
@@ -39,6 +41,8 @@ func VerifObjKind(obj any) int {
 		return 3
 	case *Pipeline:
 		return 4
+	case *streamer:
+		return 5
 	}
 	return 0
 }
